@@ -38,7 +38,40 @@ func (e *Engine) clauseOfPred(fn *ssa.Function, pred string) (*Contract, *Clause
 // writeScanner collects, by a syntactic provenance analysis of SSA, the heap
 // components in which code may write objects that existed before the code started
 // (writes to objects it allocates itself are not effects a caller can observe).
+// globalWrite is a store into package-level state.
+type globalWrite struct {
+	g   *ssa.Global
+	pos string
+	fn  *ssa.Function
+}
+
+// globalRoot: the package-level variable an address or container value is derived from
+// (directly, through field/element selection, or by loading a pointer/map/slice held in it).
+func globalRoot(v ssa.Value, depth int) *ssa.Global {
+	if depth > 12 {
+		return nil
+	}
+	switch x := v.(type) {
+	case *ssa.Global:
+		return x
+	case *ssa.FieldAddr:
+		return globalRoot(x.X, depth+1)
+	case *ssa.IndexAddr:
+		return globalRoot(x.X, depth+1)
+	case *ssa.UnOp:
+		if x.Op == token.MUL {
+			return globalRoot(x.X, depth+1)
+		}
+	case *ssa.Slice:
+		return globalRoot(x.X, depth+1)
+	case *ssa.ChangeType:
+		return globalRoot(x.X, depth+1)
+	}
+	return nil
+}
+
 type writeScanner struct {
+	globals     []globalWrite
 	fieldPoints []*ssa.FieldAddr // fields written through pointers computed outside the scope
 	slicePoints []ssa.Value      // slices (computed outside the scope) whose elements are written
 	points      []ssa.Value      // addresses of single cells written (values of the enclosing frame)
@@ -47,6 +80,7 @@ type writeScanner struct {
 	keys        map[string]bool
 	seen        map[string]bool
 	phiSeen     map[*ssa.Phi]bool
+	followAll   bool // also descend into callees that have contracts (whole-program scans)
 }
 
 func (ws *writeScanner) isFreshRoot(v ssa.Value, inScope func(ssa.Instruction) bool, paramFresh map[*ssa.Parameter]bool, depth int) bool {
@@ -116,6 +150,9 @@ func (ws *writeScanner) scanIns(ins ssa.Instruction, inScope func(ssa.Instructio
 	keys := ws.keys
 	switch x := ins.(type) {
 	case *ssa.Store:
+		if g := globalRoot(x.Addr, 0); g != nil {
+			ws.globals = append(ws.globals, globalWrite{g, e.posOf(x.Pos()), ins.Parent()})
+		}
 		if ws.isFreshRoot(x.Addr, inScope, paramFresh, 0) {
 			return
 		}
@@ -184,6 +221,9 @@ func (ws *writeScanner) scanIns(ins ssa.Instruction, inScope func(ssa.Instructio
 			}
 		}
 	case *ssa.MapUpdate:
+		if g := globalRoot(x.Map, 0); g != nil {
+			ws.globals = append(ws.globals, globalWrite{g, e.posOf(x.Pos()), ins.Parent()})
+		}
 		if ws.isFreshRoot(x.Map, inScope, paramFresh, 0) {
 			return
 		}
@@ -225,7 +265,7 @@ func (ws *writeScanner) scanIns(ins ssa.Instruction, inScope func(ssa.Instructio
 			if cc.IsInvoke() {
 				if named, ok := cc.Value.Type().(*types.Named); ok && named.Obj().Pkg() != nil {
 					id := named.Obj().Pkg().Path() + ".(" + named.Obj().Name() + ")." + cc.Method.Name()
-					if c := e.w.Contracts[id]; c != nil && c.Options["pure"] {
+					if c := e.w.Contracts[id]; c != nil && c.Options["pure"] && !ws.followAll {
 						return // an interface method declared pure has no effect on existing objects
 					}
 				}
@@ -260,7 +300,7 @@ func (ws *writeScanner) scanIns(ins ssa.Instruction, inScope func(ssa.Instructio
 			keys["E:"+typeKey(types.NewSlice(types.Typ[types.Uint8]))] = true
 			return
 		}
-		if c := e.w.contractFor(f); c != nil && len(c.byKind("ensures")) > 0 && !c.Options["inline"] {
+		if c := e.w.contractFor(f); c != nil && len(c.byKind("ensures")) > 0 && !c.Options["inline"] && !ws.followAll {
 			for _, cl := range c.byKind("assigns") {
 				for _, item := range splitTop(cl.Expr, ',') {
 					item = strings.TrimSpace(item)
@@ -271,7 +311,7 @@ func (ws *writeScanner) scanIns(ins ssa.Instruction, inScope func(ssa.Instructio
 			}
 			return
 		}
-		if e.inlinable(f) && len(f.Blocks) > 0 {
+		if (e.inlinable(f) || (ws.followAll && e.inRepo(f))) && len(f.Blocks) > 0 {
 			pf := map[*ssa.Parameter]bool{}
 			for i, p := range f.Params {
 				if i < len(cc.Args) && ws.isFreshRoot(cc.Args[i], inScope, paramFresh, 0) {
@@ -324,6 +364,14 @@ func (e *Engine) modSet(fr *frame, li *loopInfo) (keys map[string]bool, all bool
 	li.fieldPoints = ws.fieldPoints
 	li.slicePoints = ws.slicePoints
 	return ws.keys, false
+}
+
+// globalWritesOf lists the stores into package-level variables that fn or anything it
+// can call (statically, through interfaces, or through function values) performs.
+func (e *Engine) globalWritesOf(fn *ssa.Function) []globalWrite {
+	ws := &writeScanner{e: e, keys: map[string]bool{}, seen: map[string]bool{}, followAll: true}
+	ws.scanFn(fn, nil)
+	return ws.globals
 }
 
 // writeSetOfCall: the components a call of fn may write in pre-existing objects.
